@@ -278,8 +278,9 @@ class Run:
             ev["coverage"]["notes"] = self.notes
         if not self.coverage["samples"]:
             self.coverage["samples"].append("no case generated")
-        os.makedirs(os.path.join(VERIF, "evidence"), exist_ok=True)
-        json.dump(ev, open(os.path.join(VERIF, "evidence", self.prop + ".json"), "w"), indent=1, default=str)
+        evdir = os.environ.get("VERIF_EVIDENCE_DIR") or os.path.join(VERIF, "evidence")   # seeded-change runs redirect it
+        os.makedirs(evdir, exist_ok=True)
+        json.dump(ev, open(os.path.join(evdir, self.prop + ".json"), "w"), indent=1, default=str)
         for l in lines:
             print(l, flush=True)
         log(f"[{self.prop}] tier={self.tier} seed={self.seed} evaluations={self.coverage['evaluations']} "
